@@ -496,6 +496,14 @@ func (fr *Frame) assumeWFSpec(sc *Scope, v Val) {
 }
 
 func (fr *Frame) selectField(sc *Scope, v Val, name string, what string) Val {
+	if v.K == KElemPtr || v.K == KCellPtr || v.K == KFieldPtr || v.K == KBoxPtr {
+		// pointer to a slice element, local, field or box holding a struct: select from the struct it points to
+		if pt, ok := v.T.Underlying().(*types.Pointer); ok {
+			if _, ok := pt.Elem().Underlying().(*types.Struct); ok {
+				v = fr.load(sc.st, v, pt.Elem())
+			}
+		}
+	}
 	if v.K != KNormal {
 		cfail("field selection on unsupported value in %s", what)
 	}
@@ -1126,9 +1134,15 @@ func (fr *Frame) applySpec(sc *Scope, sf *SpecFunc, x *ECall) Val {
 		cfail("spec function %s expects %d arguments", sf.Name, len(sf.Params))
 	}
 	var args []Val
+	dsc := sc // types in the signature resolve in the package that declares the spec function
+	if p := fr.en.typesPkg(sf.PkgPath); p != nil && p != sc.pkg {
+		n := *sc
+		n.pkg = p
+		dsc = &n
+	}
 	for i, a := range x.Args {
 		v := fr.evalExpr(sc, a)
-		if t := fr.resolveTypeStr(sc, sf.PTypes[i]); t != nil {
+		if t := fr.resolveTypeStr(dsc, sf.PTypes[i]); t != nil {
 			v = fr.coerceTo(v, t)
 			if v.K == KNormal && len(v.C) == 1 && isInteger(t) && sortWidth(v.C[0].Sort) > 0 {
 				v = fr.convertVal(v, t)
@@ -1151,7 +1165,7 @@ func (fr *Frame) applySpec(sc *Scope, sf *SpecFunc, x *ECall) Val {
 		return fr.evalExpr(&n, sf.Body)
 	}
 	// uninterpreted
-	rt := fr.resolveTypeStr(sc, sf.RType)
+	rt := fr.resolveTypeStr(dsc, sf.RType)
 	if rt == nil {
 		cfail("unknown result type %s of spec function %s", sf.RType, sf.Name)
 	}
@@ -1175,9 +1189,19 @@ func (fr *Frame) applySpec(sc *Scope, sf *SpecFunc, x *ECall) Val {
 			ts = append(ts, t)
 		}
 	}
-	rs := fr.en.layout(rt)[0].Sort
-	f := fr.ctx.Func("spec:"+sf.Name, sorts, rs)
-	return scalar(rt, app(rs, f, ts...))
+	lay := fr.en.layout(rt)
+	if len(lay) == 1 {
+		rs := lay[0].Sort
+		f := fr.ctx.Func("spec:"+sf.Name, sorts, rs)
+		return scalar(rt, app(rs, f, ts...))
+	}
+	// a struct-valued result: one uninterpreted function per component
+	out := Val{K: KNormal, T: rt, C: make([]Term, len(lay))}
+	for k, c := range lay {
+		f := fr.ctx.Func(fmt.Sprintf("spec:%s.%d", sf.Name, k), sorts, c.Sort)
+		out.C[k] = app(c.Sort, f, ts...)
+	}
+	return out
 }
 
 // resolveTypeStr resolves a simple type name; composite types ([]T, *T) give nil (no coercion).
